@@ -455,18 +455,26 @@ class Roles:
                     if t["callee"]["base"].endswith("Watcher::new") and "notify" in t["callee"]["declared"] and t["args"] and t["args"][0]["k"] != "const":
                         for kind, x, pb in b.prov.direct_producers(t["args"][0]["place"]["local"]):
                             if kind == "agg" and x["rv"].get("closure") in self.f.bodies:
-                                out.append((self.f.bodies[x["rv"]["closure"]], b, bb))
+                                out.append((self.V(self.f.bodies[x["rv"]["closure"]]), b, bb))
             return out
         return self._memo("notify_cb", go)
 
+    def recursive_in_view(self, b):
+        """the fn calls itself, directly or through helpers spliced into its view (mutual recursion through a single-call-site helper)"""
+        v = self.V(b)
+        return any(callee_base(t) == b.name for _, t in v.calls())
+
     def resolvers(self):
-        """self-recursive local fns that take the map of resolved targets (HashMap<TargetId, Target>)"""
+        """recursive local fns whose view inserts into the map of resolved targets (HashMap<TargetId, Target>); looked at as views"""
         def go():
             out = []
-            for b in self.f.code_bodies():
-                if b.name in self.f.cg.edges.get(b.name, ()) and any(re.search(r"HashMap<[\w:]*TargetId, [\w:]*Target>", l["ty"]) for l in b.locals[1:b.argc + 1]):
+            for b in self.f.user_bodies():
+                if b.kind not in ("Fn", "AssocFn") or not self.recursive_in_view(b):
+                    continue
+                v = self.V(b)
+                if any(re.search(r"HashMap::<[\w:]*TargetId, [\w:]*Target>::insert$", callee_decl(t)) for _, t in v.calls()):
                     out.append(b)
-            return out
+            return [self.V(b) for b in self.outermost(out)]
         return self._memo("resolvers", go)
 
     def launch_sites(self):
